@@ -15,7 +15,7 @@
  * delivers a pending completion; (4) nni_msg_len is the real one. */
 
 static bool vp_held(nni_mtx *m) { return ((m == g_mtx_a && g_held_a) || (m == g_mtx_b && g_held_b)); }
-#define VP_EQ_LOCKED (g_self != NULL && vp_held(&g_self->a_expire_q->eq_mtx))
+#define VP_EQ_LOCKED (vp_held(g_eq_mtx))
 #define VP_SOCK_LK_HELD (vp_held(&sock_lk))
 
 /* ---- completion task -------------------------------------------------- */
@@ -72,7 +72,6 @@ void nni_task_exec(nni_task *t)
 	g_exec++;
 	g_busy--;
 }
-static void vp_complete(void);
 void nni_task_wait(nni_task *t)
 {
 	__CPROVER_assert(t == g_task_addr, "task: the aio's own completion task");
@@ -80,12 +79,14 @@ void nni_task_wait(nni_task *t)
 	g_cancel_at_wait = g_cancel_calls;
 	g_task_wait++;
 	/* Sequential stand-in for "another thread completes the operation while
-	 * the caller waits": an operation that is still pending is completed
-	 * here (arbitrary result g_r), and the wait counts as a blocking one. */
+	 * the caller waits": a pending operation is complete when the wait
+	 * returns, and the wait counts as a blocking one.  (The fields the
+	 * completion writes were already written by the model operation, see
+	 * vp_op; reading them before this wait is caught by the assertion in
+	 * nni_task_fini and by the !g_pending postcondition.) */
 	if (g_pending) {
 		g_blocked_waits++;
 		g_pending = false;
-		vp_complete();
 	}
 }
 bool nni_task_busy(nni_task *t)
@@ -117,7 +118,7 @@ void nni_cv_init(nni_cv *cv, nni_mtx *m) { (void) cv; (void) m; }
 void nni_cv_fini(nni_cv *cv) { (void) cv; }
 void nni_cv_wake(nni_cv *cv)
 {
-	if (g_self != NULL && cv == &g_self->a_expire_q->eq_cv) {
+	if (cv == g_eq_cv) {
 		__CPROVER_assert(VP_EQ_LOCKED, "cv wake under the expire lock");
 		g_cv_wake++;
 	} else {
@@ -129,7 +130,7 @@ void nni_cv_wake(nni_cv *cv)
 void nni_cv_wake1(nni_cv *cv) { nni_cv_wake(cv); }
 void nni_cv_wait(nni_cv *cv)
 {
-	__CPROVER_assert(g_self != NULL && cv == &g_self->a_expire_q->eq_cv, "cv: the expire queue's condition variable");
+	__CPROVER_assert(cv == g_eq_cv, "cv: the expire queue's condition variable");
 	__CPROVER_assert(VP_EQ_LOCKED, "cv wait under the expire lock");
 	g_cv_waits++;
 	if (g_self != NULL) {
@@ -161,7 +162,7 @@ int nni_list_node_active(nni_list_node *n)
 }
 void nni_list_append(nni_list *l, void *item)
 {
-	if (g_self != NULL && l == &g_self->a_expire_q->eq_list) {
+	if (l == g_eq_list) {
 		__CPROVER_assert(VP_EQ_LOCKED, "expire list changed only under the expire lock");
 		__CPROVER_assert(item == (void *) g_self, "expire list: the aio under study");
 		__CPROVER_assert(!g_exp_on, "expire list: aio inserted while already a member");
@@ -189,15 +190,7 @@ vp_cancel(nni_aio *aio, void *arg, nng_err rv)
 	g_cancel_aio = aio;
 	g_cancel_arg = arg;
 	g_cancel_rv  = (int) rv;
-	if (g_pending) {
-		/* the protocol still owns the operation: it completes it with rv */
-		g_pending = false;
-		g_fin_calls++;
-		g_fin_rv = (int) rv;
-		nni_aio_finish_error(aio, rv);
-	} else if (g_cancel_finishes) {
-		nni_aio_finish_error(aio, rv);
-	}
+	(void) aio;
 }
 nni_aio_cancel_fn vp_cancel_ref = vp_cancel;
 
@@ -223,29 +216,86 @@ nni_id_get(nni_id_map *m, uint64_t id)
 /* ---- the protocol's send / receive operations -------------------------- *
  * ASSUMED behaviour of a protocol operation: it is handed (data, aio); it
  * either completes the aio inside the call (g_op_sync) or submits it with
- * nni_aio_start (the REAL one) and, if accepted, completes it later; the
- * result g_r is ARBITRARY.  Send, result 0: the protocol detaches the message
- * (it owns it from then on); any other result: the message stays attached.
- * Receive, result 0: an arbitrary fresh message g_rmsg is attached.
- * Completion goes through the REAL nni_aio_finish* functions. */
+ * nni_aio_start and, if accepted, completes it later (sequentially: while the
+ * caller waits in nni_task_wait); the result g_r is ARBITRARY.  Send, result
+ * 0: the protocol detaches the message (it owns it from then on); any other
+ * result: the message stays attached.  Receive, result 0: an arbitrary fresh
+ * message g_rmsg is attached.
+ *
+ * What nni_aio_start / nni_aio_finish* do to the aio WHEN THE PROTOCOL CALLS
+ * THEM is modelled by vp_start / vp_finish below: exactly the clauses of the
+ * contracts enforced in module aiocore (units aio_start, aio_finish,
+ * aio_finish_msg, aio_finish_error) that concern the result, the message,
+ * the skip flag, the cancel slot and the dispatch count.  (Running the real
+ * functions here, or replacing them by the aiocore contracts, did not finish
+ * within 420 s -- see not_decided in spec.json.)  The wrappers' OWN calls into
+ * aio.c (init, skip_callback, set_timeout, normalize_timeout, wait, result,
+ * get/set_msg, reset, finish_error, fini) are the real functions. */
 static void
-vp_complete(void)
+vp_finish(nni_aio *aio, int rv, nni_msg *m)
 {
-	nni_aio *aio = g_op_aio;
+	/* AIO_FINISH_CONTRACT: result stored, slot cleared, message attached if
+	 * given, and exactly one of { skip flag set, completion dispatched } */
+	aio->a_result     = (nng_err) rv;
+	aio->a_cancel_fn  = NULL;
+	aio->a_cancel_arg = NULL;
+	if (m != NULL) {
+		aio->a_msg = m;
+	}
+	if (aio->a_skipped_callback != NULL) {
+		*aio->a_skipped_callback = true;
+		aio->a_skipped_callback  = NULL;
+	} else {
+		g_dispatched++;
+	}
+}
+static bool
+vp_start(nni_aio *aio, void *data)
+{
+	/* contract aio_start: the skip flag is disarmed; refused with exactly one
+	 * dispatched completion when stopped (NNG_ESTOPPED), aborted before
+	 * submission (the latched code), or out of time (NNG_ETIMEDOUT: relative
+	 * timeout NNG_DURATION_ZERO, or an absolute deadline that has passed --
+	 * the latter decided by the clock, here arbitrary); otherwise accepted
+	 * with the cancel function installed and a clean result */
+	aio->a_skipped_callback = NULL;
+	g_prep++;
+	if (aio->a_stop || aio->a_expire_q->eq_stop) {
+		aio->a_stop   = true;
+		aio->a_result = NNG_ESTOPPED;
+		g_dispatched++;
+		return (false);
+	}
+	if (aio->a_abort) {
+		aio->a_abort  = false;
+		aio->a_result = aio->a_abort_result;
+		g_dispatched++;
+		return (false);
+	}
+	if ((!aio->a_use_expire && aio->a_timeout == NNG_DURATION_ZERO) || (aio->a_use_expire && nondet_bool())) {
+		aio->a_result = NNG_ETIMEDOUT;
+		g_dispatched++;
+		return (false);
+	}
+	aio->a_result     = NNG_OK;
+	aio->a_cancel_fn  = vp_cancel;
+	aio->a_cancel_arg = data;
+	return (true);
+}
+
+static void
+vp_complete(nni_aio *aio)
+{
 	g_fin_calls++;
 	g_fin_rv = g_r;
 	if (VP_OP_IS_SEND(VP_KIND)) {
-		size_t n = 0;
 		if (g_r == 0) {
-			nni_aio_set_msg(aio, NULL);
+			aio->a_msg = NULL; /* nni_aio_set_msg(aio, NULL): the protocol owns the message */
 			g_msg_taken++;
-			n = g_op_msg_len;
 		}
-		nni_aio_finish(aio, (nng_err) g_r, n);
-	} else if (g_r == 0) {
-		nni_aio_finish_msg(aio, g_rmsg);
+		vp_finish(aio, g_r, NULL);
 	} else {
-		nni_aio_finish(aio, (nng_err) g_r, 0); /* = nni_aio_finish_error */
+		vp_finish(aio, g_r, g_r == 0 ? g_rmsg : NULL);
 	}
 }
 
@@ -256,9 +306,9 @@ vp_op(int kind, void *data, nni_aio *aio)
 	g_self      = aio;
 	g_exp_node  = &aio->a_expire_node;
 	g_prov_node = &aio->a_prov_node;
-	g_eq_list = &aio->a_expire_q->eq_list;
-	g_eq_mtx  = &aio->a_expire_q->eq_mtx;
-	g_eq_cv   = &aio->a_expire_q->eq_cv;
+	g_eq_list   = &aio->a_expire_q->eq_list;
+	g_eq_mtx    = &aio->a_expire_q->eq_mtx;
+	g_eq_cv     = &aio->a_expire_q->eq_cv;
 	g_op_calls++;
 	g_op_kind       = kind;
 	g_op_data       = data;
@@ -272,26 +322,29 @@ vp_op(int kind, void *data, nni_aio *aio)
 	} else {
 		g_op_ref = (g_ctx != NULL) ? g_ctx->c_ref : 0;
 	}
+#ifdef VP_RECORD_BODY
 	if (VP_OP_IS_SEND(kind) && aio->a_msg != NULL) {
 		g_op_msg_len = nni_msg_len(aio->a_msg);
 		if (g_k < g_op_msg_len) {
 			g_op_msg_byte = ((uint8_t *) nni_msg_body(aio->a_msg))[g_k];
 		}
 	}
-	__CPROVER_assert(!g_pending, "one operation at a time on the aio");
-#ifdef VP_EXPERIMENT_LIGHT
-	g_fin_calls++; g_fin_rv = g_r; aio->a_result = g_r; if (aio->a_skipped_callback) { *aio->a_skipped_callback = true; aio->a_skipped_callback = NULL; } return;
 #endif
+	__CPROVER_assert(!g_pending, "one operation at a time on the aio");
 	if (g_op_sync) {
-		vp_complete();
+		vp_complete(aio);
 		return;
 	}
-	if (!nni_aio_start(aio, vp_cancel, data)) {
-		/* refused (stopped, aborted, or timeout zero): completed by nni_aio_start, the message (send) stays attached */
+	if (!vp_start(aio, data)) {
+		/* refused: completed by nni_aio_start; the message (send) stays attached */
 		g_fin_calls++;
 		g_fin_rv = (int) aio->a_result;
 		return;
 	}
+	/* accepted: the operation is pending until the caller's wait returns
+	 * (nni_task_wait); the completion another thread will deliver by then is
+	 * written now */
+	vp_complete(aio);
 	g_pending = true;
 }
 /* Each unit studies ONE kind of operation (VP_KIND, a unit define): the slot
